@@ -61,12 +61,29 @@ theorem grpcStatusRejects_eq (cfg got : Nat) :
     Gen.RespGuard.grpcStatusRejects cfg got = decide (cfg ≠ 0 ∧ cfg ≠ got) := by
   simp [Gen.RespGuard.grpcStatusRejects, Int.natCast_inj]
 
+/-- when the response body is read into `b`: the condition of the `if` around `io.ReadAll(body)`, as a boolean function
+of its three atoms, is the model's `bodyReadCond` — body patterns OR a size block, AND a reader. Another spelling or
+order of the same condition keeps this lemma; dropping `a.Size != nil` again (the size assertion would compare against
+`len(nil) = 0`), dropping the `body != nil` guard or turning `||` into `&&` breaks it. -/
+theorem httpBodyReadCond_eq (hasPatterns hasSize bodyPresent : Bool) :
+    Gen.RespGuard.httpBodyReadCond hasPatterns hasSize bodyPresent = bodyReadCond hasPatterns hasSize bodyPresent := by
+  cases hasPatterns <;> cases hasSize <;> cases bodyPresent <;> rfl
+
+/-- every atom of that condition is one the model knows -/
+theorem httpBodyReadUnknownAtoms_eq : Gen.RespGuard.httpBodyReadUnknownAtoms = [] := rfl
+
+/-- hence `assertHttp` measures the real body exactly when the CURRENT source reads it (the guns always pass a reader) -/
+theorem readsBody_eq (a : AssertCfg) :
+    a.readsBody = Gen.RespGuard.httpBodyReadCond (!a.body.isEmpty) a.size.isSome true := by
+  rw [httpBodyReadCond_eq]; rfl
+
 /-- the checks of the http assertion (sorted; `assertHttp` has the same ones; every failing check is an error, none
-panics; the body is read only when patterns are configured) -/
+panics; the body is read under BODYREAD-COND = `httpBodyReadCond`, a read error is an error return; canonical
+spelling of that block: locals `v<i>`, error text dropped) -/
 theorem httpAssertSteps_eq : Gen.RespGuard.httpAssertSteps = [
+    "if BODYREAD-COND { v0, v1 = io.ReadAll(v2) if v1 != nil { return nil, fmt.Errorf(\"…\", v1) } }",
     "if a.Size != nil",
     "if a.StatusCode != 0 && a.StatusCode != resp.StatusCode",
-    "if len(a.Body) > 0 && body != nil",
     "range a.Body: if !bytes.Contains(b, []byte(v)) -> return error",
     "range a.Headers: if !(strings.Contains(resp.Header.Get(k), v)) -> return error",
     "return nil, nil"] := rfl
